@@ -186,6 +186,91 @@ pub fn interesting_serials(w: &World) -> Vec<u32> {
     res
 }
 
+/// A data set as the JSON documents present it: key -> item (ASPAs are
+/// keyed by customer: an announcement replaces).
+fn json_set(ds: &DataSet) -> BTreeMap<String, String> {
+    use rpki::rtr::payload::Payload;
+    let mut res = BTreeMap::new();
+    let mut put = |p: Payload| {
+        let v = crate::checks::c18::expect_item(&p);
+        let key = if v["type"] == "aspa" { format!("aspa:{}", v["customerAsn"]) } else { v.to_string() };
+        res.insert(key, v.to_string());
+    };
+    for o in &ds.origins { put(Payload::Origin(*o)); }
+    for k in &ds.keys { put(Payload::RouterKey(k.clone())); }
+    for (c, p) in &ds.aspas { put(Payload::aspa(*c, p.clone())); }
+    res
+}
+
+fn json_key(v: &Value) -> String {
+    if v["type"] == "aspa" { format!("aspa:{}", v["customerAsn"]) } else { v.to_string() }
+}
+
+/// The `/json-delta` view of the same history: every client serial around
+/// the window under the own session and under foreign sessions that differ
+/// from it in one place only (next / previous, bit 16, bit 32, bit 63).
+fn check_http(w: &World, httpd: &crate::httpd::Httpd, queries: &mut u64) -> Result<(), (String, String)> {
+    let (cur, cur_idx) = w.issued.cur();
+    let own = w.history.read().session();
+    let k = w.keep as i64;
+    let current = json_set(&w.sets[cur_idx]);
+    let sessions = [own, own.wrapping_add(1), own.wrapping_sub(1), own ^ (1 << 16), own.wrapping_add(1 << 16),
+        own.wrapping_sub(1 << 16), own ^ (1 << 32), own ^ (1 << 63)];
+    for d in -(k + 2)..=1 {
+        let s = cur.wrapping_add(d as u32);
+        for (si, session) in sessions.iter().enumerate() {
+            *queries += 1;
+            let uri = format!("/json-delta?session={session}&serial={s}");
+            let a = httpd.get(&uri, &[]);
+            let what = format!("{uri} (own session {own}, current serial {cur})");
+            if a.status != 200 { return Err(("http-status".into(), format!("{what}: status {}", a.status))) }
+            let v: Value = serde_json::from_slice(&a.body).map_err(|e| ("http-json".to_string(), format!("{what}: {e}")))?;
+            if v["session"].as_str() != Some(&own.to_string()) && v["session"].as_u64() != Some(own) {
+                return Err(("http-session".into(), format!("{what}: answer carries session {}", v["session"])))
+            }
+            if v["serial"].as_u64() != Some(cur as u64) {
+                return Err(("http-serial".into(), format!("{what}: answer carries serial {}", v["serial"])))
+            }
+            let ann = v["announced"].as_array().cloned().unwrap_or_default();
+            let wd = v["withdrawn"].as_array().cloned().unwrap_or_default();
+            if v["reset"].as_bool() == Some(true) {
+                let got: BTreeMap<String, String> = ann.iter().map(|x| (json_key(x), x.to_string())).collect();
+                if got != current || got.len() != ann.len() {
+                    return Err(("http-reset-wrong".into(), format!("{what}: reset document does not carry the current data")))
+                }
+                // the own session inside the window must get a delta
+                if si == 0 {
+                    if let Some((age, _)) = w.issued.find(s) {
+                        if age > 0 && age <= std::cmp::max(w.keep, 1) {
+                            return Err((format!("http-window-reset:age={age},keep={}", w.keep), format!("{what}: client {age} behind with history-size {} was sent a reset", w.keep)))
+                        }
+                    }
+                }
+                continue
+            }
+            // a delta: only for our own session and a serial we issued
+            if si != 0 {
+                return Err(("http-foreign-session-served".into(), format!("{what}: a delta was served to a foreign session")))
+            }
+            let Some((_, idx)) = w.issued.find(s) else {
+                return Err(("http-unknown-served".into(), format!("{what}: a delta was served for a serial never issued")))
+            };
+            if v["fromSerial"].as_u64() != Some(s as u64) {
+                return Err(("http-from-serial".into(), format!("{what}: fromSerial {}", v["fromSerial"])))
+            }
+            let mut got = json_set(&w.sets[idx]);
+            for x in &wd {
+                if got.remove(&json_key(x)).is_none() { return Err(("http-delta-unappliable".into(), format!("{what}: withdraws absent {x}"))) }
+            }
+            for x in &ann { got.insert(json_key(x), x.to_string()); }
+            if got != current {
+                return Err(("http-delta-wrong".into(), format!("{what}: applying the delta to the data of serial {s} does not give the current data")))
+            }
+        }
+    }
+    Ok(())
+}
+
 fn check_other_views(w: &World) -> Result<(), (String, String)> {
     let (cur, cur_idx) = w.issued.cur();
     let session = w.history.read().rtr_session();
@@ -229,11 +314,17 @@ fn run_history(
     outcomes: &mut BTreeMap<String, u64>, queries: &mut u64,
 ) -> Vec<(String, String, Value)> {
     let mut w = World::new(keep, base);
+    let httpd = crate::httpd::Httpd::new(&w.config, w.history.clone());
     let mut viol = Vec::new();
     for (step, idx) in seq.iter().enumerate() {
         w.update(*idx);
         if let Err((class, msg)) = check_other_views(&w) {
             viol.push((class, msg, json!({
+                "keep": keep, "base": base, "seq": &seq[..=step]
+            })));
+        }
+        if let Err((class, msg)) = check_http(&w, &httpd, queries) {
+            viol.push((class, format!("keep={keep} base={base} history={:?}: {msg}", &seq[..=step]), json!({
                 "keep": keep, "base": base, "seq": &seq[..=step]
             })));
         }
@@ -283,7 +374,12 @@ pub fn run(ctx: &Ctx) -> Report {
         wrap inside the window); after every step every client serial \
         within keep+4 of current, all serials at distance 2^31 +-2 of \
         current and of every issued serial, and the extremes is presented \
-        to PayloadSource::diff of the real SharedHistory; oracle = \
+        to PayloadSource::diff of the real SharedHistory, and every client \
+        serial around the window is sent to /json-delta (real dispatcher) \
+        under the own 64-bit session and 7 foreign ones differing from it \
+        in one place (+-1, bit 16, +-2^16, bit 32, bit 63); the data sets \
+        carry origins, router keys and one ASPA customer whose provider \
+        set changes in every set; oracle = \
         harness-kept map serial->data; non-trivial = queries answered \
         with a non-empty delta or refused although issued".into();
     let seqs = all_seqs(4, len);
